@@ -4,6 +4,7 @@
 ID=$1; TIER=${2:-quick}; RC=0
 for d in /verif/seeded/$ID-*/; do
   s=$(basename $d); WT=/tmp/mut/reseed-$s
+  if grep -q '"retired"' $d/meta.json; then echo "$s: retired (superseded by a repair, see meta.json)"; continue; fi
   git -C /repo worktree remove --force $WT >/dev/null 2>&1
   git -C /repo worktree add --detach $WT HEAD >/dev/null 2>&1 || { echo "$s: cannot create worktree"; RC=2; continue; }
   if ! git -C $WT apply $d/patch.diff 2>/dev/null; then
